@@ -24,6 +24,10 @@ class PDPAdapter(TourAdapter):
     shard = 120
     obs_keys = ("current_node", "i")
     tiny = 6
+    # after EVERY step in C02 / C04 (Harness/HPDP.v book_obs); i and current_node also against their definition
+    book_keys = (("i", "int"), ("current_node", "int"), ("available", "bits"))
+    book_fn = "check_book"
+    book_type = "pdp_book"
 
     # witnesses of the repaired checker defect (fix 5d5f57a)
     witnesses = (({"num_loc": 4, "force_start": False}, [1, 2], "witness:n=4,[1,2]"),
